@@ -779,6 +779,10 @@ func (p *TXParamSetupReqPayload) UnmarshalBinary(data []byte) error {
 		return errors.New("lorawan: 1 byte of data is expected")
 	}
 
+	// reset the dwell-times (in case p has been used before)
+	p.UplinkDwellTime = DwellTimeNoLimit
+	p.DownlinkDwelltime = DwellTimeNoLimit
+
 	if data[0]&(1<<4) > 0 {
 		p.UplinkDwellTime = DwellTime400ms
 	}
